@@ -1,0 +1,9 @@
+//go:build verif
+
+package nonce
+
+// Contracts for the deductive verifier in /verif (govc). Comment-only file.
+
+//@ func Generate
+//@   ensures [C10] length: result1 == nil ==> len(result0) == 12
+//@   ensures result1 == nil ==> fresh(result0)
